@@ -352,13 +352,15 @@ def importCalls (af : AsFound) (fs : Fs) (importer : Path) (lps : List Path)
 /-! ### the per-input property predicate P̂ (used by the theorems and, through the driver, on the
     implementation's own observation) -/
 
-/-- `res` / `calls` is what was observed for one load.  The property: the outcome is the one the
-    documented search gives, every existence test is on a candidate of that search, and the
-    only read is of the resolved file. -/
-def checkLoad (fs : Fs) (importer url : Path) (lps : List Path) (forImport : Bool)
+/-- `res` / `calls` is what was observed for one load.  The property (`af = .spec`): the outcome
+    is the one the documented search gives, every existence test is on a candidate of that search,
+    and the only read is of the resolved file.  With another `af` the same predicate is relative to
+    that variant of the search; the check uses it only to attribute a failure of the `.spec`
+    predicate to a known as-found switch. -/
+def checkLoad (af : AsFound) (fs : Fs) (importer url : Path) (lps : List Path) (forImport : Bool)
     (res : Option Path) (calls : List Call) : Bool :=
-  let cands := candidates .spec importer url lps forImport
-  decide (res = resolve .spec fs importer url lps forImport) &&
+  let cands := candidates af importer url lps forImport
+  decide (res = resolve af fs importer url lps forImport) &&
   calls.all (fun c =>
     match c with
     | .probe p => cands.contains p
@@ -496,11 +498,12 @@ def handle : List String → String
         "ok " ++ ";".intercalate (rs.map (fun r => resultStr r.1 ++ "|" ++ callsStr r.2)) ++
           " # " ++ ";".intercalate info
       | _, _, _, _, _ => "unsupported"
-  -- check <importer> <lps> <files> <dirs> <step> <res: L:<path> | E> <calls>   (P̂ on an observation)
-  | ["check", importer, lps, files, dirs, step, res, calls] =>
-    match pathOfStr true importer, listOfStr lps, listOfStr files, listOfStr dirs, stepOfStr step,
+  -- check <af> <importer> <lps> <files> <dirs> <step> <res: L:<path> | E> <calls>   (P̂ on an observation;
+  --   af = 0000 is the property, other values only attribute a failure to a known switch)
+  | ["check", af, importer, lps, files, dirs, step, res, calls] =>
+    match afOfStr af, pathOfStr true importer, listOfStr lps, listOfStr files, listOfStr dirs, stepOfStr step,
           callsOfStr calls with
-    | some importer, some lps, some files, some dirs, some (fi, url), some calls =>
+    | some af, some importer, some lps, some files, some dirs, some (fi, url), some calls =>
       if importer.isEmpty then "unsupported" else
       let fs := fsOf files dirs
       let res? : Option (Option Path) :=
@@ -511,15 +514,15 @@ def handle : List String → String
       match res? with
       | none => "bad-op"
       | some r =>
-        if checkLoad fs importer url lps fi r calls then "ok holds"
+        if checkLoad af fs importer url lps fi r calls then "ok holds"
         else
-          let spec := resolve .spec fs importer url lps fi
-          let cands := candidates .spec importer url lps fi
+          let spec := resolve af fs importer url lps fi
+          let cands := candidates af importer url lps fi
           let badProbe := calls.find? (fun c => match c with | .probe p => !cands.contains p | .read p => decide (r ≠ some p))
           "ok fails " ++ (if r ≠ spec then "result" else "calls") ++ " spec=" ++
             (match spec with | some p => pathStr p | none => "E") ++ " first-bad-call=" ++
             (match badProbe with | some c => callStr c | none => "-")
-    | _, _, _, _, _, _ => "unsupported"
+    | _, _, _, _, _, _, _ => "unsupported"
   -- cands <af> <importer> <lps> <step>  → the ordered probe list
   | ["cands", af, importer, lps, step] =>
     match afOfStr af, pathOfStr true importer, listOfStr lps, stepOfStr step with
